@@ -106,13 +106,14 @@ for ent, fn, props, what in (
     G(name=ent[2:], harness="h_user.c", entry=ent, enforce=[fn], style="legacy", unwind=33, shrink="user.c", cbmc_flags=["--no-array-field-sensitivity"], props=props, min_obl=5, cost=20, timeout=600, what=what)
 
 SRV_FLAGS = ["--no-array-field-sensitivity"]
+SRV_SHRINK = dict(shrink="iodined.c", shrink_set="payload64")
 for uc in (0, 1):
     G(name="srv_check_user_u%d" % uc, harness="h_iodined.c", entry="h_check_user", defs=["H_UID_CASE=%d" % uc], enforce=["check_user_and_ip", "check_authenticated_user_and_ip", "check_authenticated_user_and_ip_and_options"],
-      style="legacy", unwind=17, cbmc_flags=SRV_FLAGS, props={"C03": "all", "C04": "all", "C05": "safety"}, min_obl=10, timeout=600, cost=60, mem_gb=24,
+      style="legacy", unwind=17, cbmc_flags=SRV_FLAGS, props={"C03": "all", "C04": "all", "C05": "safety"}, min_obl=10, timeout=600, cost=60, mem_gb=24, **SRV_SHRINK,
       what="check_user_and_ip family == the statement's predicate (live, not expired, own source with -c, logged in, options unlocked), both directions, userid case %s" % ("literal 0" if uc == 0 else "any other value"))
     for cmd in "SONIR":
-        G(name="srv_cmd_%s_u%d" % (cmd, uc), harness="h_iodined.c", entry="h_cmd_guarded", defs=["H_UID_CASE=%d" % uc, "H_CMD='%s'" % cmd], enforce=["handle_null_request"],
-          style="legacy", unwind=17, cbmc_flags=SRV_FLAGS, props={"C03": "all", "C04": "all", "C05": "safety", "C15": "all", "C14": "all"}, min_obl=10, timeout=900, cost=200, mem_gb=24,
+        G(name="srv_cmd_%s_u%d" % (cmd, uc), harness="h_iodined.c", entry="h_cmd_guarded", defs=["H_UID_CASE=%d" % uc, "H_CMD='%s'" % cmd, "STUB_HELPERS=1"], enforce=["handle_null_request"],
+          style="legacy", unwind=31, unwindset=(["handle_null_request.3:2047"] if cmd == "R" else []), cbmc_flags=SRV_FLAGS, props={"C03": "all", "C04": "all", "C05": "safety", "C15": "all", "C14": "all"}, min_obl=10, timeout=900, cost=200, mem_gb=24, **SRV_SHRINK,
           what="handle_null_request, command %s (either letter case), userid case %s: no setting changes / BADIP only unless the named session is live, from its own source and logged in; at most one answer; no tun write; SESSION_WF preserved" % (cmd, "literal 0" if uc == 0 else "any other value"))
 
 for ent, fns, props, what in (
@@ -120,7 +121,7 @@ for ent, fns, props, what in (
      "send_chunk_or_dataless on an arbitrary session: payload <= fragsize, last flag only on the final fragment, fragment number field, one answer (+1 for a remembered duplicate), query consumed, SESSION_WF preserved"),
     ("h_downstream_ack", ["process_downstream_ack"], {"C15": "all", "C05": "safety"}, "process_downstream_ack: only a matching ack advances, by exactly the bytes sent, fragment numbers consecutive"),
     ("h_outpacket_queue", ["save_to_outpacketq", "get_from_outpacketq", "start_new_outpacket"], {"C15": "all", "C01": "all", "C05": "safety"}, "outpacket queue: FIFO of 4, new packets start at fragment 0 with the next sequence number")):
-    G(name="srv_" + ent[2:], harness="h_iodined.c", entry=ent, enforce=fns, style="legacy", unwind=17, cbmc_flags=SRV_FLAGS, props=props, min_obl=10, timeout=900, cost=100, mem_gb=24, what=what)
+    G(name="srv_" + ent[2:], harness="h_iodined.c", entry=ent, enforce=fns, style="legacy", unwind=17, unwindset=["h_send_chunk.0:6", "h_send_chunk.1:5", "h_downstream_ack.0:6", "h_downstream_ack.1:5", "h_outpacket_queue.0:6", "h_outpacket_queue.1:5"], cbmc_flags=SRV_FLAGS, props=props, min_obl=10, timeout=900, cost=100, mem_gb=24, what=what, **SRV_SHRINK)
 
 LEVELS = {}
 TRUSTED_BASE = ["CBMC 6.11.0 (goto-cc front end, goto-instrument --dfcc contract instrumentation, symex)",
